@@ -198,13 +198,13 @@ func subsetsUpTo(items []string, max int) [][]string {
 // family (b): localized edits
 
 type Edit struct {
-	Kind string `json:"kind"` // ow (overwrite in place) | ins | del
+	Kind string `json:"kind"` // ow (overwrite in place) | ins | del | zow, zins (like ow, ins but the new bytes are all zero)
 	Off  int    `json:"off"`  // offset in the OLD file
 	Len  int    `json:"len"`
 }
 
 func (e Edit) span() int { // old bytes consumed
-	if e.Kind == "ins" {
+	if e.Kind == "ins" || e.Kind == "zins" {
 		return 0
 	}
 	return e.Len
@@ -235,6 +235,11 @@ func applyEdits(base []byte, edits []Edit, seed int64) []byte {
 		case "ow":
 			out = append(out, wh.Content(fmt.Sprintf("r%d/%d", 2+j, e.Len), seed)...)
 			pos += e.Len
+		case "zow":
+			out = append(out, make([]byte, e.Len)...)
+			pos += e.Len
+		case "zins":
+			out = append(out, make([]byte, e.Len)...)
 		case "ins":
 			out = append(out, wh.Content(fmt.Sprintf("r%d/%d", 2+j, e.Len), seed)...)
 		case "del":
@@ -303,7 +308,7 @@ func main() {
 	runner.Main(runner.Config{
 		ID:    "C08",
 		Level: "model_checking",
-		Rule:  "bounded exhaustive enumeration of (old build, new build) pairs through the real WritePatch; fresh bytes counted from the independently decoded op stream and from DiffContext.FreshBytes/ReusedBytes. copies: 10 base contents (3B+100, 8B, 8B+1 pseudo-random; empty, 1 byte, B-1, B, repeated block, zeros, tail that is a prefix of a block) x every placement of the content on 1-3 of 4 paths (same path, renamed, in a sub-directory, duplicated; with/without the original) x 5 dispositions of an unrelated second file; plus weak twins: a block with the rolling checksum of an old block and other bytes, followed - in the same or a later file - by the real block, which must still be found. edits: old file of 3B+100 / 8B / 8B+1 bytes, k in {1,2} edits of kind overwrite/insert/delete at offsets {0,1,B-1,B,B+1,mid,size-B-1,size-1} with lengths {1,B-1,B,B+1} (all singles x same path/renamed; all ordered non-overlapping pairs, on the 8B file only in quick), bound fresh <= introduced + (2k+2)*64KiB. shift-sweep: insertion and deletion at offset 0 of every length 1..B-1 (thorough; strided in quick) so every alignment shift mod B occurs. big: 70B+17-byte file (buffer wraps) with edits around the 4MiB/buffer boundaries and fresh runs of 4MiB-1, 4MiB, 4MiB+1, 8MiB+1, 8MiB+64KiB+12345 (thorough: more) followed by old data. Non-trivial = the new build differs from the old one and the patch contains at least one BLOCK_RANGE op.",
+		Rule:  "bounded exhaustive enumeration of (old build, new build) pairs through the real WritePatch; fresh bytes counted from the independently decoded op stream and from DiffContext.FreshBytes/ReusedBytes. copies: 10 base contents (3B+100, 8B, 8B+1 pseudo-random; empty, 1 byte, B-1, B, repeated block, zeros, tail that is a prefix of a block) x every placement of the content on 1-3 of 4 paths (same path, renamed, in a sub-directory, duplicated; with/without the original) x 5 dispositions of an unrelated second file; plus weak twins: a block with the rolling checksum of an old block and other bytes, followed - in the same or a later file - by the real block, which must still be found. edits: old file of 3B+100 / 8B / 8B+1 bytes, k in {1,2} edits of kind overwrite/insert/delete at offsets {0,1,B-1,B,B+1,mid,size-B-1,size-1} with lengths {1,B-1,B,B+1} (all singles x same path/renamed, plus zero-filled insertions and overwrites of B+1 and 2B+5000 bytes at every boundary offset; all ordered non-overlapping pairs, on the 8B file only in quick), bound fresh <= introduced + (2k+2)*64KiB. shift-sweep: insertion and deletion at offset 0 of every length 1..B-1 (thorough; strided in quick) so every alignment shift mod B occurs. big: 70B+17-byte file (buffer wraps) with edits around the 4MiB/buffer boundaries and fresh runs of 4MiB-1, 4MiB, 4MiB+1, 8MiB+1, 8MiB+64KiB+12345 (thorough: more) followed by old data. Non-trivial = the new build differs from the old one and the patch contains at least one BLOCK_RANGE op.",
 		Assumptions: []string{
 			"file contents are seeded pseudo-random streams (VERIF_SEED); edits introduce bytes of a different stream",
 			"the number of BLOCK_RANGE ops per copied file is recorded, not judged (the statement does not promise one range)",
@@ -548,6 +553,22 @@ func body(w *runner.W) {
 				for _, ren := range []bool{false, true} {
 					n++
 					k1.Do(EditCase{Size: size, Edits: []Edit{e}, Rename: ren, Comp: comps[n%3]})
+				}
+			}
+		}
+		// low-entropy edits: a zero-filled stretch longer than a block (every window rolled
+		// through it has the same weak hash) inserted into / written over the old data,
+		// which continues after it
+		for _, size := range sizes {
+			for _, o := range boundaryOffsets(size) {
+				for _, l := range []int{B + 1, 2*B + 5000} {
+					for _, kind := range []string{"zins", "zow"} {
+						if kind == "zow" && o+l+B > size {
+							continue // keep at least a block of old data after the stretch
+						}
+						n++
+						k1.Do(EditCase{Size: size, Edits: []Edit{{kind, o, l}}, Rename: n%2 == 0, Comp: comps[n%3]})
+					}
 				}
 			}
 		}
